@@ -105,7 +105,7 @@ package snps
 //@   before call:aggregateWriteOutput#1: assert [c13.writer] aggregate && arg(0) == w && (arg(1) == threshold || (isnan(arg(1)) && isnan(threshold))) && arg(2) == cSNPs && arg(3) == cErr && arg(4) == cWriteDone
 //@   before call:getSNPs#1: assert [c03.worker] sameslice(arg(0), refSeq) && arg(1) == cFR && arg(2) == cSNPs && arg(3) == cErr
 //@   before call:writeOutput#1: assert [c03.writer] !aggregate && arg(0) == w && arg(1) == cSNPs && arg(2) == cErr && arg(3) == cWriteDone
-//@   ensures [c18.error.returned] implies(gErrSeen, result != nil)
+//@   ensures [local.c18.error.returned] implies(gErrSeen, result != nil)
 //@   # C03: --hard-gaps reaches BOTH sides of the comparison: the reference codes come from the table hardGaps selects, and the
 //@   # streaming reader of the queries is started with the same flag
 //@   before call:ReadEncodeAlignment#1: assert [c03.refmode] forall(j, 0, len(refSeq), modeOK(refSeq[j], hardGaps))
